@@ -64,6 +64,7 @@ type Scenario struct {
 	ArmN     int               `json:"arm_n"`           // die before the N-th write of that delivery
 	Expect   []string          `json:"expect_heads,omitempty"`
 	Transit  []string          `json:"transit_heads,omitempty"` // heads the armed delivery passed through in the unarmed run
+	FS       *FSSpec           `json:"fs,omitempty"`            // fork-switch phase (forkswitch.go)
 }
 
 type DeliveryResult struct {
@@ -649,7 +650,11 @@ func childRestart(r *mon.Run, scPath string) {
 }
 
 func scenarioWitness(sc *Scenario) interface{} {
-	return map[string]interface{}{"id": sc.ID, "shape": sc.Shape, "nodes": sc.Nodes, "delivery": sc.Delivery, "arm_at": sc.ArmAt, "arm_n": sc.ArmN}
+	w := map[string]interface{}{"id": sc.ID, "shape": sc.Shape, "nodes": sc.Nodes, "delivery": sc.Delivery, "arm_at": sc.ArmAt, "arm_n": sc.ArmN}
+	if sc.FS != nil {
+		w["fs"] = sc.FS
+	}
+	return w
 }
 
 // ---------------------------------------------------------------------------
@@ -843,6 +848,10 @@ func main() {
 			childRun(r, args[1])
 		case "restart":
 			childRestart(r, args[1])
+		case "fsrun":
+			childFSRun(r, args[1])
+		case "fsrestart":
+			childFSRestart(r, args[1])
 		}
 		return
 	}
@@ -877,8 +886,15 @@ func main() {
 		nsc, crashBudget = r.Pick(14, 120), r.Pick(40, 500)
 	}
 	var scs []*Scenario
+	// VERIF_C05_PHASE=fs|classic restricts a run to the fork-switch phases or to the AddBlockOnChain
+	// phases (development aid; the registered check runs both)
+	phase := os.Getenv("VERIF_C05_PHASE")
 	if replay != nil {
-		scs = []*Scenario{replay}
+		if replay.FS == nil {
+			scs = []*Scenario{replay}
+		}
+	} else if phase == "fs" {
+		scs = nil
 	} else {
 		for i := 0; i < nsc; i++ {
 			scs = append(scs, genScenario(r.Rand("c05", i), i))
@@ -1031,14 +1047,31 @@ func main() {
 		os.RemoveAll(dir)
 		os.Remove(spec)
 	})
+	// phase 4+5: whole branches through the sync path's block fork switch (no-crash and crash points)
+	must := []string{"deliveries", "head_changes", "reorgs", "crash_points", "restarts", "invariant_evaluations", "probe_blocks", "pool_tx_checks"}
+	if phase == "fs" {
+		must = []string{"invariant_evaluations"}
+	}
+	if !poolOnly && phase != "classic" && (replay == nil || replay.FS != nil) {
+		var fsReplay *Scenario
+		if replay != nil {
+			fsReplay = replay
+		}
+		runForkSwitchPhase(r, wd, gdir, fsReplay)
+		must = append(must, "fs_switches", "fs_outcome_adopted", "fs_outcome_unchanged", "fs_fork_stopped", "fs_fork_verified", "fs_crash_points", "fs_restarts", "fs_resyncs")
+	}
+	if replay != nil {
+		must = []string{"invariant_evaluations"}
+	}
 	mon.CleanWork()
 	r.Finish(mon.Coverage{
-		Evaluations:        r.Get("deliveries") + r.Get("crash_points"),
-		DistinctNontrivial: int64(r.DistinctCount("nontrivial_scenarios") + r.DistinctCount("crash_points")),
+		Evaluations:        r.Get("deliveries") + r.Get("crash_points") + r.Get("fs_switches") + r.Get("fs_crash_points"),
+		DistinctNontrivial: int64(r.DistinctCount("nontrivial_scenarios") + r.DistinctCount("crash_points") + r.DistinctCount("fs_nontrivial_scenarios") + r.DistinctCount("fs_crash_points")),
 		Exhaustive:         false,
 		Rule: "scenarios: seeded block trees (main branch 1-4, competing branch forking at any depth with lower/tied/higher weight incl. prove-value and hash ties, optional third sibling, non-contiguous heights, blocks with transactions) built by a separate builder process and delivered through AddBlockOnChain in 5 order shapes (in order, competing first, shuffled, orphans first, duplicates); " +
-			"walker after every delivery; non-trivial scenario = at least one head change, distinct by (shape, order, tree). Crash points: for chosen head-changing deliveries (reorgs first) EVERY physical store write is a crash point (process exits before write N), followed by a fresh process restart, walker, head-on-path check, redelivery and a probe extension; distinct by (scenario, delivery, N)",
+			"walker after every delivery; non-trivial scenario = at least one head change, distinct by (shape, order, tree). Crash points: for chosen head-changing deliveries (reorgs first) EVERY physical store write is a crash point (process exits before write N), followed by a fresh process restart, walker, head-on-path check, redelivery and a probe extension; distinct by (scenario, delivery, N). " +
+			"Fork switches (sync path, hook H4e): a local chain of 2-5 blocks is put on the node, then whole branches of 1-4 blocks (lower / tied with smaller, larger, equal prove value / higher total QN; with and without transactions; ancestor = the fork point, a block below it, or a segment of the local chain; one block corrupted in state root, tx root, pre-hash, hash, request id or height; repeated and retried deliveries) go through VerifBlockForkSwitch; walker + head rule after every switch; crash points = every physical write of chosen adopted switches (2-3 blocks removed, 2-3 added), restart, walker, head-on-path, re-synchronisation of the branch, probe extension",
 		Assumptions: []string{"stub ConsensusHelper: signature/VRF validity of blocks is outside this property", "process death, not power loss", "intermediate blocks on the path old head -> fork point -> new head are accepted as post-crash heads (each single insert/remove is the atomic head change; see DESIGN.md C05)"},
-		MustObserve: []string{"deliveries", "head_changes", "reorgs", "crash_points", "restarts", "invariant_evaluations", "probe_blocks", "pool_tx_checks"},
+		MustObserve: must,
 	})
 }
